@@ -53,6 +53,23 @@ def _replay_state(st, W, E):
                              tuple(map(float, want_w))))
         if not (e.N == want_e[0] and abs(float(e.get()) - float(want_e[1])) <= tol):
             problems.append(("es." + name, (e.N, float(e.get())), tuple(map(float, want_e))))
+    # magnitudes: the same stream scaled by a power of two (exact in binary floating point) gives the scaled results,
+    # through every accessor - tiny values are values, not noise
+    for sc in (2.0 ** -70, 2.0 ** -33, 2.0 ** 45):
+        w, e = W(), E(float(alpha))
+        for v in hist:
+            w.update(float(v) * sc)
+            e.update(float(v) * sc)
+        tol = 1e-12 * (1 + sum(abs(float(v)) for v in hist)) * (1 + len(hist)) * sc
+        tol2 = 1e-12 * (1 + sum(float(v) ** 2 for v in hist)) * (1 + len(hist)) * sc * sc
+        got = (float(w.get()), float(w()), float(w.mean), float(w.var), float(e.get()), float(e()))
+        wantv = (float(want_w[1]) * sc, float(want_w[1]) * sc, float(want_w[1]) * sc, float(want_w[2]) * sc * sc,
+                 float(want_e[1]) * sc, float(want_e[1]) * sc)
+        tols = (tol, tol, tol, tol2, tol, tol)
+        bad = [i for i in range(6) if not (math.isfinite(got[i]) and abs(got[i] - wantv[i]) <= tols[i])]
+        if bad:
+            names = ("welford.get()", "welford()", "welford.mean", "welford.var", "es.get()", "es()")
+            problems.append(("scaled.%g" % sc, {names[i]: got[i] for i in bad}, {names[i]: wantv[i] for i in bad}))
     return problems
 
 
